@@ -29,6 +29,7 @@ refoscore_strerror(int err) {
   case REFOSCORE_E_AEAD: return "aead-tag-mismatch";
   case REFOSCORE_E_PLAINTEXT_MALFORMED: return "plaintext-malformed";
   case REFOSCORE_E_OBSERVE: return "inner-observe-without-registration";
+  case REFOSCORE_E_OPTION_TRAILING: return "oscore-option-trailing-bytes";
   default: return "unknown-error";
   }
 }
@@ -668,7 +669,7 @@ refoscore_optval_decode(const uint8_t *buf, size_t len, refoscore_optval_t *v) {
     i = len;
   }
   if (i != len)
-    return REFOSCORE_E_OPTION_MALFORMED; /* bytes after the last announced field */
+    return REFOSCORE_E_OPTION_TRAILING; /* 6.1: only the kid may occupy "the remaining bytes" */
   return REFOSCORE_OK;
 }
 
